@@ -19,6 +19,8 @@ thread_local! {
 pub struct AllocStats {
     pub max_request: usize,
     pub peak_live: usize,
+    /// bytes still live when the window closed (caches that outlive the call, e.g. the backtrace symboliser's)
+    pub live_at_end: usize,
     pub requests: u64,
 }
 
@@ -35,6 +37,7 @@ pub fn disarm() -> AllocStats {
     AllocStats {
         max_request: MAX_REQ.with(|c| c.get()),
         peak_live: PEAK.with(|c| c.get()).max(0) as usize,
+        live_at_end: LIVE.with(|c| c.get()).max(0) as usize,
         requests: COUNT.with(|c| c.get()),
     }
 }
@@ -93,5 +96,13 @@ unsafe impl GlobalAlloc for CountingAlloc {
         note_free(layout.size());
         note_alloc(new_size);
         System.realloc(ptr, layout, new_size)
+    }
+}
+
+impl AllocStats {
+    /// peak of the memory that was given back before the window closed: a lower bound of what the call itself
+    /// needed at its worst moment, never counting process-wide caches filled during the call
+    pub fn transient_peak(&self) -> usize {
+        self.peak_live.saturating_sub(self.live_at_end)
     }
 }
